@@ -220,8 +220,15 @@ impl ProgressBar {
     }
 
     fn tick_inner(&self, now: Instant) {
-        // Only tick if a `Ticker` isn't installed
-        if self.ticker.lock().unwrap().is_none() {
+        // Only tick if a `Ticker` isn't installed (its thread is gone once the bar was finished,
+        // also when the bar has been reset since)
+        let ticking = self
+            .ticker
+            .lock()
+            .unwrap()
+            .as_ref()
+            .map_or(false, Ticker::is_running);
+        if !ticking {
             self.state().tick(now);
         }
     }
@@ -273,8 +280,13 @@ impl ProgressBar {
     pub fn update(&self, f: impl FnOnce(&mut ProgressState)) {
         // Check the ticker slot before taking the bar state: locking them in the other order can
         // deadlock against a thread that holds the ticker slot while joining the ticker thread.
-        let tick = self.ticker.lock().unwrap().is_none();
-        self.state().update(Instant::now(), f, tick);
+        let ticking = self
+            .ticker
+            .lock()
+            .unwrap()
+            .as_ref()
+            .map_or(false, Ticker::is_running);
+        self.state().update(Instant::now(), f, !ticking);
     }
 
     /// Sets the position of the progress bar
@@ -706,6 +718,12 @@ impl Ticker {
     pub(crate) fn stop(&self) {
         *self.stopping.0.lock().unwrap() = true;
         self.stopping.1.notify_one();
+    }
+
+    fn is_running(&self) -> bool {
+        self.join_handle
+            .as_ref()
+            .map_or(false, |handle| !handle.is_finished())
     }
 }
 
